@@ -31,12 +31,14 @@ struct Src {
 struct PollCall {
   int timeout;
   bool permute;
+  int64_t intr_after = -1;  // a signal the caller handles arrives this long after the call began (-1: none)
 };
 
 struct Case {
   std::vector<Src> src;
   int64_t poll_after = 0;     // first poll is entered this long after the last start
   std::vector<PollCall> polls;
+  int64_t wait_intr_after = -1;  // as PollCall::intr_after, for the wait
   int wait_kind = 0;          // 0 none, 1 wait(0), 2 wait(finite), 3 wait(DEADLINE), 4 wait(INFINITE)
   int wait_timeout = 0;
   int wait_on = 0;
@@ -110,11 +112,13 @@ Case decode(Tape &t)
       default: p.timeout = REPROC_INFINITE; break;
     }
     p.permute = t.coin();
+    if (t.chance(1, 5)) p.intr_after = t.coin() ? (int64_t) t.range(0, 3000) : (p.timeout > 0 ? (int64_t) t.range(0, (uint32_t) p.timeout) : (int64_t) t.range(0, 100000));
     c.polls.push_back(p);
   }
   c.wait_kind = (int) t.weighted({ 3, 2, 3, 3, 1 });
   c.wait_timeout = (int) t.range(1, 100000);
   c.wait_on = (int) t.pick((uint32_t) n);
+  if (t.chance(1, 4)) c.wait_intr_after = (int64_t) t.range(0, (uint32_t) c.wait_timeout);
   static const int64_t epochs[] = { 1000000, 1, 1700000000000LL, 2147483000LL, 2199023255000LL, 4102444800000LL };
   c.epoch = epochs[t.pick(6)];
   return c;
@@ -151,8 +155,8 @@ CaseResult run_case(Tape &t, long)
     for (auto &s : c.src)
       js.push_back(s.null ? std::string("null") : J().kv("deadline", s.deadline).kv("interests", s.interests).kv("event", s.ev_kind).kv("event_after", (long long) s.ev_after).kv("start_gap", (long long) s.start_gap).str());
     std::vector<std::string> jp;
-    for (auto &p : c.polls) jp.push_back(J().kv("timeout", p.timeout).kv("permuted_rerun", p.permute).str());
-    res.describe = J().raw("sources", jarr(js)).kv("first_poll_after", (long long) c.poll_after).raw("polls", jarr(jp)).kv("wait_kind", c.wait_kind).kv("wait_timeout", c.wait_timeout).kv("wait_on", c.wait_on).kv("epoch", (long long) c.epoch).str();
+    for (auto &p : c.polls) jp.push_back(J().kv("timeout", p.timeout).kv("permuted_rerun", p.permute).kv("signal_after", (long long) p.intr_after).str());
+    res.describe = J().raw("sources", jarr(js)).kv("first_poll_after", (long long) c.poll_after).raw("polls", jarr(jp)).kv("wait_kind", c.wait_kind).kv("wait_timeout", c.wait_timeout).kv("wait_on", c.wait_on).kv("wait_signal_after", (long long) c.wait_intr_after).kv("epoch", (long long) c.epoch).str();
   }
   auto teardown = [&]() {
     w.uninstall();
@@ -185,7 +189,7 @@ CaseResult run_case(Tape &t, long)
     }
   }
 
-  bool saw_null_interleaved = false, saw_mixed_deadlines = false, saw_close_bounds = false, saw_repeat_after_expiry = false, saw_deadline_result = false, saw_timeout_result = false, saw_event_result = false, saw_permuted = false;
+  bool saw_null_interleaved = false, saw_mixed_deadlines = false, saw_close_bounds = false, saw_repeat_after_expiry = false, saw_deadline_result = false, saw_timeout_result = false, saw_event_result = false, saw_permuted = false, saw_interrupted = false;
   {
     int kinds = 0;
     bool none = false, fut = false;
@@ -240,9 +244,12 @@ CaseResult run_case(Tape &t, long)
       int64_t B = std::min(T, std::min(D, E));
       w.call_begins(B == INF ? 100000 : (B > entry ? B - entry : 0) + 100000);
     }
+    if (pc.intr_after >= 0) w.intr_poll_at = entry + pc.intr_after;
     int r = reproc_poll(srcs.data(), srcs.size(), pc.timeout);
     int64_t ret_at = w.now;
     bool hung = w.hang && !hang_before;
+    int64_t intr_at = w.intr_fired_at;
+    w.intr_poll_at = w.intr_fired_at = -1;
 
     auto fail = [&](const std::string &sig, const std::string &m) {
       res.fail(sig, "poll #" + std::to_string(pi) + " (timeout " + std::to_string(pc.timeout) + ", entered at +" + std::to_string(entry - t_first) + " ms): " + m);
@@ -250,6 +257,17 @@ CaseResult run_case(Tape &t, long)
     std::string evs;
     for (size_t i = 0; i < srcs.size(); i++) evs += " " + std::to_string(srcs[i].events);
 
+    if (intr_at >= 0) {
+      // The blocked call was interrupted by a signal. Giving up with EINTR at
+      // that moment is fine; so is going on - but then every bound below still
+      // holds from the original entry (a restart with the full timeout would
+      // not be bounded by anything).
+      saw_interrupted = true;
+      if (r == -EINTR) {
+        if (ret_at != intr_at) fail("interrupted-late", "interrupted at +" + std::to_string(intr_at - entry) + " ms, returned the interruption error at +" + std::to_string(ret_at - entry));
+        continue;
+      }
+    }
     if (D <= entry) {
       // an expired deadline is reported immediately, and again on every later poll
       if (expired_reported_before) saw_repeat_after_expiry = true;
@@ -360,10 +378,17 @@ CaseResult run_case(Tape &t, long)
           int64_t B = std::min(bound, death);
           w.call_begins(B == INF ? 100000 : (B > entry ? B - entry : 0) + 100000);
         }
+        if (c.wait_intr_after >= 0) w.intr_poll_at = entry + c.wait_intr_after;
         int r = reproc_wait(kids[i].p, to);
         int64_t ret_at = w.now;
+        int64_t intr_at = w.intr_fired_at;
+        w.intr_poll_at = w.intr_fired_at = -1;
         auto fail = [&](const std::string &sig, const std::string &m) { res.fail(sig, "wait(" + std::to_string(to) + ") on source " + std::to_string(i) + ": " + m); };
-        if (w.hang && !hang_before) fail("wait-blocked-past-bound", "waited without bound; expected to end at +" + std::to_string(std::min(bound, death) - entry) + " ms");
+        if (intr_at >= 0) saw_interrupted = true;
+        if (intr_at >= 0 && r == -EINTR) {
+          // gave up when the signal arrived (see the polls above); otherwise the bounds below hold unchanged
+          if (ret_at != intr_at) fail("interrupted-late", "interrupted at +" + std::to_string(intr_at - entry) + " ms, returned the interruption error at +" + std::to_string(ret_at - entry));
+        } else if (w.hang && !hang_before) fail("wait-blocked-past-bound", "waited without bound; expected to end at +" + std::to_string(std::min(bound, death) - entry) + " ms");
         else if (death < bound || (death == bound && r >= 0)) {
           if (r < 0) fail("wait-missed-exit", "the child ended at +" + std::to_string(death - entry) + " ms, inside the window, but wait returned " + std::to_string(r));
           else if (ret_at != std::max(death, entry)) fail("wait-duration", "returned a status at +" + std::to_string(ret_at - entry) + " ms, the child ended at +" + std::to_string(death - entry));
@@ -395,6 +420,7 @@ CaseResult run_case(Tape &t, long)
   if (saw_timeout_result) res.cls("timeout-came-first");
   if (saw_event_result) res.cls("event-came-first");
   if (saw_permuted) res.cls("permuted-rerun");
+  if (saw_interrupted) res.cls("interrupted-by-signal");
   if (saw_wait) res.cls("wait-checked");
   if (c.epoch > 2147483647LL) res.cls("epoch-beyond-2^31-ms");
   if (!w.trouble.empty()) {
